@@ -5,6 +5,9 @@
 //!   cli_codegen trace                     registries traced from the real serde impls (TypeGen)
 //!   cli_codegen transform <seed> <count>  real `run` on consistently renumbered / reshuffled descriptions
 //!   cli_codegen edges <seed> <count>      real `format` on permuted sub-multisets of the captured edges
+//!   cli_codegen synth <seed> <count> <k>   random synthetic descriptions, each run untransformed and k times transformed
+//!   cli_codegen synth-one <case_seed> <k>   one synthetic case again (replay)
+//!   cli_codegen transform-one <fixture> <case_seed> <identity>   one transform case again (replay)
 use std::{cell::RefCell, collections::HashMap};
 
 use crux_cli::codegen::verif::{verif_run, Capture, ContainerFormat, Registry};
@@ -67,6 +70,51 @@ fn dump(fx: &Fixtures) {
     }
 }
 
+fn transform_case(fx: &Fixtures, case: u64, root: &str, case_seed: u64, identity: bool) {
+    let order = RefCell::new(vec![]);
+    let ops = RefCell::new(serde_json::Map::new());
+    let hits = RefCell::new(0u64);
+    let (res, cap) = verif_run(root, |n| {
+        order.borrow_mut().push(n.to_string());
+        let base = fx.get(n)?;
+        if identity {
+            return Ok(base);
+        }
+        // an independent transformation per crate, fixed by (case seed, crate name)
+        let mut h = case_seed;
+        for b in n.bytes() {
+            h = h.wrapping_mul(0x100000001b3) ^ b as u64;
+        }
+        let t = Transform::random(&mut Rng::new(h));
+        let (c, k) = t.apply(&base)?;
+        *hits.borrow_mut() += k;
+        ops.borrow_mut().insert(n.to_string(), serde_json::to_value(&t).unwrap());
+        Ok(c)
+    });
+    // two different containers under one name in the relation the map is collected from
+    let ambiguous: Vec<String> = cap
+        .as_ref()
+        .map(|c| {
+            let mut seen: HashMap<&String, &ContainerFormat> = HashMap::new();
+            let mut bad = vec![];
+            for (n, f) in &c.containers {
+                if let Some(g) = seen.insert(n, f) {
+                    if g != f && !bad.contains(n) {
+                        bad.push(n.clone());
+                    }
+                }
+            }
+            bad
+        })
+        .unwrap_or_default();
+    println!(
+        "{}",
+        json!({"kind": "transform", "case": case, "fixture": root, "case_seed": case_seed.to_string(), "identity": identity,
+               "ops": Value::Object(ops.into_inner()), "ids_renamed": hits.into_inner(), "load_order": order.into_inner(),
+               "ambiguous_names": ambiguous, "result": result_json(&res)})
+    );
+}
+
 fn transform(fx: &Fixtures, seed: u64, count: u64) {
     let mut rng = Rng::new(seed);
     let roots: Vec<&str> = APPS.iter().chain(CAPS.iter()).copied().collect();
@@ -74,48 +122,7 @@ fn transform(fx: &Fixtures, seed: u64, count: u64) {
         // every fixture in turn; the first round is the identity transformation (the baseline)
         let root = roots[(case % roots.len() as u64) as usize];
         let case_seed = rng.next();
-        let identity = case < roots.len() as u64;
-        let order = RefCell::new(vec![]);
-        let ops = RefCell::new(serde_json::Map::new());
-        let hits = RefCell::new(0u64);
-        let (res, cap) = verif_run(root, |n| {
-            order.borrow_mut().push(n.to_string());
-            let base = fx.get(n)?;
-            if identity {
-                return Ok(base);
-            }
-            // an independent transformation per crate, fixed by (case seed, crate name)
-            let mut h = case_seed;
-            for b in n.bytes() {
-                h = h.wrapping_mul(0x100000001b3) ^ b as u64;
-            }
-            let t = Transform::random(&mut Rng::new(h));
-            let (c, k) = t.apply(&base)?;
-            *hits.borrow_mut() += k;
-            ops.borrow_mut().insert(n.to_string(), serde_json::to_value(&t).unwrap());
-            Ok(c)
-        });
-        let ambiguous: Vec<String> = cap
-            .as_ref()
-            .map(|c| {
-                let mut seen: HashMap<&String, &ContainerFormat> = HashMap::new();
-                let mut bad = vec![];
-                for (n, f) in &c.containers {
-                    if let Some(g) = seen.insert(n, f) {
-                        if g != f {
-                            bad.push(n.clone());
-                        }
-                    }
-                }
-                bad
-            })
-            .unwrap_or_default();
-        println!(
-            "{}",
-            json!({"kind": "transform", "case": case, "fixture": root, "case_seed": case_seed.to_string(), "identity": identity,
-                   "ops": Value::Object(ops.into_inner()), "ids_renamed": hits.into_inner(), "load_order": order.into_inner(),
-                   "ambiguous_names": ambiguous, "result": result_json(&res)})
-        );
+        transform_case(fx, case, root, case_seed, case < roots.len() as u64);
     }
 }
 
@@ -172,7 +179,81 @@ fn edges(fx: &Fixtures, seed: u64, count: u64) {
             Ok((r, cs)) => json!({"ok": r, "containers": containers_json(cs)}),
             Err(p) => json!({"panic": p}),
         };
-        println!("{}", json!({"kind": "edges", "case": case, "fixture": root, "style": style, "picks": picks, "result": out}));
+        let pick_edges: Vec<Value> = picks
+            .iter()
+            .map(|i| {
+                let e = &cap.edges[*i];
+                let (a, b) = (&cap.items[e.from], &cap.items[e.to]);
+                json!([a.crate_, a.id, b.crate_, b.id])
+            })
+            .collect();
+        println!("{}", json!({"kind": "edges", "case": case, "fixture": root, "style": style, "n_edges": n, "pick_edges": pick_edges, "result": out}));
+    }
+}
+
+fn ambiguous_in(cap: &Option<Capture>) -> Vec<String> {
+    let mut bad = vec![];
+    if let Some(c) = cap {
+        let mut seen: HashMap<&String, &ContainerFormat> = HashMap::new();
+        for (n, f) in &c.containers {
+            if let Some(g) = seen.insert(n, f) {
+                if g != f && !bad.contains(n) {
+                    bad.push(n.clone());
+                }
+            }
+        }
+    }
+    bad
+}
+
+/// One synthetic description: the untransformed run with its dump, then `k` transformed runs.
+fn synth_case(case: u64, case_seed: u64, k: u64) {
+    let mut rng = Rng::new(case_seed);
+    let spec = vhc::synth::gen_spec(&mut rng);
+    let crates: HashMap<String, Crate> = vhc::synth::lower(&spec).into_iter().collect();
+    let order = RefCell::new(vec![]);
+    let (res, cap) = verif_run("app", |n| {
+        order.borrow_mut().push(n.to_string());
+        crates.get(n).cloned().ok_or_else(|| anyhow::anyhow!("unknown crate {n}"))
+    });
+    let mut o = json!({"kind": "synth", "case": case, "case_seed": case_seed.to_string(), "runs_requested": k, "spec": spec,
+                       "fixture": format!("synth_{case_seed}"), "result": result_json(&res), "load_order": order.into_inner(),
+                       "ambiguous_names": ambiguous_in(&cap)});
+    if let Some(c) = &cap {
+        o["items"] = serde_json::to_value(&c.items).unwrap();
+        o["edges"] = serde_json::to_value(&c.edges).unwrap();
+        o["root"] = json!(c.root);
+        o["field"] = json!(c.field);
+        o["variant"] = json!(c.variant);
+        o["local_type_of"] = json!(c.local_type_of);
+        o["containers"] = containers_json(&c.containers);
+    }
+    let mut runs = vec![];
+    // where two containers share a name the result may depend on hash order: look harder
+    let k = if o["ambiguous_names"].as_array().map(|a| !a.is_empty()).unwrap_or(false) { k + 9 } else { k };
+    for _ in 0..k {
+        let run_seed = rng.next();
+        let order = RefCell::new(vec![]);
+        let (res, cap) = verif_run("app", |n| {
+            order.borrow_mut().push(n.to_string());
+            let base = crates.get(n).ok_or_else(|| anyhow::anyhow!("unknown crate {n}"))?;
+            let mut h = run_seed;
+            for b in n.bytes() {
+                h = h.wrapping_mul(0x100000001b3) ^ b as u64;
+            }
+            Ok(Transform::random(&mut Rng::new(h)).apply(base)?.0)
+        });
+        runs.push(json!({"run_seed": run_seed.to_string(), "result": result_json(&res), "load_order": order.into_inner(), "ambiguous_names": ambiguous_in(&cap)}));
+    }
+    o["runs"] = Value::Array(runs);
+    println!("{o}");
+}
+
+fn synth(seed: u64, count: u64, k: u64) {
+    let mut rng = Rng::new(seed ^ 0x5157_u64);
+    for case in 0..count {
+        let case_seed = rng.next();
+        synth_case(case, case_seed, k);
     }
 }
 
@@ -208,6 +289,10 @@ fn main() {
         Some("dump") => dump(&fx),
         Some("trace") => trace(),
         Some("transform") => transform(&fx, num(2, 1), num(3, 24)),
+        // replay of one transform case: <fixture> <case_seed> <identity 0|1>
+        Some("synth") => synth(num(2, 1), num(3, 10), num(4, 3)),
+        Some("synth-one") => synth_case(0, num(2, 0), num(3, 3)),
+        Some("transform-one") => transform_case(&fx, 0, &args[2], num(3, 0), num(4, 0) == 1),
         Some("edges") => edges(&fx, num(2, 1), num(3, 24)),
         _ => {
             eprintln!("usage: cli_codegen dump|trace|transform <seed> <count>|edges <seed> <count>");
